@@ -370,7 +370,29 @@ fn gen_c07(tier: &str, rng: &mut Sm) -> Gen {
             }
         }
     }
-    g.meta("generator", format!("{reps} x populations of 1..{nmax} single-case individuals with and without ties, both polarities, separate and shared genomes; every tournament size 1..n; best and worst"));
+    // individuals with SEVERAL cases: selection pressure goes by the total, not by the per-case vector read
+    // lexicographically ([0,100] is worse than [5,5] as errors, better as scores)
+    for rep in 0..reps {
+        for pop in [
+            vec![vec![0i64, 100], vec![5, 5], vec![50, 1]],
+            vec![vec![9, 0, 0], vec![0, 0, 10], vec![3, 3, 3], vec![0, 9, 0]],
+            vec![vec![1, 2], vec![2, 1], vec![0, 3], vec![3, 1]],
+            (0..5).map(|_| (0..3).map(|_| rng.range(0, 9)).collect()).collect(),
+        ] {
+            let n = pop.len();
+            for pol in [0i64, 1, 2, 3] {
+                if reps == 1 && pol >= 2 && rep == 0 && n != 4 {
+                    continue;
+                }
+                g.inputs.push(case(rng, 200, pol, pop.clone(), tl![A(0)]));
+                g.inputs.push(case(rng, 200, pol, pop.clone(), tl![A(1)]));
+                for k in [1usize, 2, n] {
+                    g.inputs.push(case(rng, draws, pol, pop.clone(), tl![A(3), au(k)]));
+                }
+            }
+        }
+    }
+    g.meta("generator", format!("{reps} x populations of 1..{nmax} single-case individuals with and without ties, both polarities, separate and shared genomes; every tournament size 1..n; best and worst; populations of multi-case individuals whose per-case vectors read lexicographically disagree with their totals; selector values that served populations of other sizes before"));
     g
 }
 
